@@ -41,12 +41,17 @@ def build(args):
     # a descriptor does not depend on branching fractions: every third chain has modes with the default value 0 / 0.0
     zb = {d["n"]: rng.choice([0, 0.0]) for d in c["decays"] if rng.random() < 0.5} if cid % 3 == 0 else None
     try:
+        # one chain object that is rendered again and again, under every pattern and in between
+        shared = cio.build_chain(cz, c, rng=rng, zero_bf=zb)
+        strings.add(("default", shared.to_string()))
+        strings.add(("default", cio.build_chain(cz, c, rng=rng, zero_bf=zb).to_string()))
         for top, sub in cio.PATTERNS:
             order = [d["n"] for d in c["decays"]]
             rng.shuffle(order)
             dc = cio.build_chain(cz, c, order=order, rng=rng, zero_bf=zb)
             with DescriptorFormat(top, sub):
                 s = dc.to_string()
+                strings.add((top, shared.to_string()))
                 # the same string whatever order daughters and sub-decays were given in
                 for _ in range(2):
                     o2 = order[:]
@@ -62,6 +67,8 @@ def build(args):
         ps = parse_all(s, top, sub)
         tree = tree_json(abstract_tree(cz, ps[0])) if len(ps) == 1 else {"m": "?", "leaf": True, "kids": []}
         reads.append({"pat": "default, after the format blocks", "string": s, "nparses": len(ps), "tree": tree})
+        strings.add(("default", s))
+        strings.add(("default", shared.to_string()))
     except Exception as e:  # noqa: BLE001
         raised = repr(e)[:200]
         reads.append({"pat": "raised", "string": raised, "nparses": 0, "tree": {"m": "?", "leaf": True, "kids": []}})
